@@ -127,6 +127,9 @@ def wild_config(rng, plat):
         for b in s["body"]:
             ind2 = ind if rng.random() < 0.85 else rng.choice(["", " ", ind + " ", "\t\t"])
             out.append(ind2 + (mutate(rng, b) if rng.random() < 0.15 else b))
+        if s["hs"].startswith("object-group") and rng.random() < 0.3:      # nested groups, descriptions, members of other grammars
+            out.append(ind + rng.choice(["group-object G1", "group-object NOPE", "description inner", "range 10.0.0.1 10.0.0.9",
+                                         "network-object host 10.0.0.1", "10.0.0.0/33"]))
     if rng.random() < 0.1:
         out.insert(0, "  indented first line")
     return "\n".join(out)
